@@ -83,7 +83,9 @@ def render(tokens, tracers):
         vals = [_value(a, tracers) for a in args]
         if fmt == "<os.linesep>":
             out.append(os.linesep)
-        elif "{" in fmt:
+            continue
+        fmt = fmt.replace("<os.linesep>", os.linesep)          # a separator inside one written piece (os.linesep.join(...))
+        if "{" in fmt:
             out.append(fmt.format(*vals))
         elif vals:
             out.append(fmt % tuple(vals))
@@ -233,7 +235,7 @@ FAKE_LABELS = ["Al", "Cu", "Zz", "B", "Ag", "a", "Na"]
 
 def validate_eam_writer(run, which, n=10):
     """which in tabeam | tabeam_fs | setfl | setfl_fs: the regenerated whole-file writers against writeTABEAM / writeTABEAMFinnisSinclair / _writeSetFL on
-    tracer functions and dyadic grids (text compared byte for byte; for setfl without its five header lines, whose writer is an operation of the translated function)"""
+    tracer functions and dyadic grids (text compared byte for byte, header lines, comments and the optional cutoff of the public setfl functions included)"""
     from atsim.potentials import Potential, EAMPotential
     ok, log = build_gen()
     if not ok:
@@ -271,11 +273,16 @@ def validate_eam_writer(run, which, n=10):
         nrho, nr = rng.randint(1, 11), rng.randint(1, 11)
         drho, dr = Fr(rng.randint(1, 9), 2 ** k), Fr(rng.randint(1, 9), 2 ** k)
         title = rng.choice(["", "t", "a title", "x" * 120])
-        reqs.append(dict(op=which if which.startswith("tabeam") else "setfl", fs=fs, els=els, pots=pots, nrho=nrho, drho=common.fq(drho), nr=nr, dr=common.fq(dr), title=title))
-        cases.append((els, pots, nrho, drho, nr, dr, title))
+        comments = rng.choice([[], ["one"], ["a", "b", "c"], ["a", "", "c", "dropped"], ["", "", ""]])
+        cutoff = rng.choice([None, None, Fr(0), Fr(rng.randint(1, 40), 4)])
+        req = dict(op=which if which.startswith("tabeam") else "setfl", fs=fs, els=els, pots=pots, nrho=nrho, drho=common.fq(drho), nr=nr, dr=common.fq(dr), title=title, comments=comments)
+        if cutoff is not None:
+            req["cutoff"] = common.fq(cutoff)
+        reqs.append(req)
+        cases.append((els, pots, nrho, drho, nr, dr, title, comments, cutoff))
     answers = query_gen(reqs)
     bad = 0
-    for (els, pots, nrho, drho, nr, dr, title), a in zip(cases, answers):
+    for (els, pots, nrho, drho, nr, dr, title, comments, cutoff), a in zip(cases, answers):
         tracers = {0: _Zero()}
         for e in els:
             for f in [e["embed"], e["dens"]] + [d["fid"] for d in e["densFS"]]:
@@ -295,10 +302,8 @@ def validate_eam_writer(run, which, n=10):
                 m.writeTABEAMFinnisSinclair(nrho, float(drho), nr, float(dr), eobjs, pobjs, buf, title)
             else:
                 from atsim.potentials import _lammpsWriteEAM as m
-                m._writeSetFL(nrho, float(drho), nr, float(dr), 1.0, eobjs, pobjs, [], buf, m._writeSetFLDensityFunctionFinnisSinclair if fs else m._writeSetFLDensityFunction)
+                (m.writeSetFLFinnisSinclair if fs else m.writeSetFL)(nrho, float(drho), nr, float(dr), eobjs, pobjs, buf, list(comments), None if cutoff is None else float(cutoff))
             real = buf.getvalue()
-            if which.startswith("setfl"):
-                real = "".join(real.splitlines(True)[5:])
         except KeyError:
             real = "raised"
         gen = a if a == "raised" else render(a, tracers)
@@ -415,4 +420,40 @@ def validate_cfg_logic(run, which, n=200):
             bad += 1
             if bad <= 2:
                 run.tie_broken("translator", "generated %s vs the real one" % which, "input %r: real %r generated %r" % (c, r, a))
+    return len(cases)
+
+
+def validate_table_reader(run, n=150):
+    """the regenerated TableReaderBase._findIndex / getValue against the real methods: sorted tables with distinct and with repeated abscissae, queries on, between and
+    outside the rows (dyadic numbers: every value exact)"""
+    import atsim.potentials as ap
+    ok, log = build_gen()
+    if not ok:
+        run.tie_broken("translator", "Gen/Logic.lean (table reader)", "the regenerated definitions (or their driver) do not build: " + log[-600:])
+        return 0
+    rng = run.rng
+    cases, reqs = [], []
+    for _ in range(n):
+        m = rng.randint(1, 7)
+        xs = sorted(rng.sample(range(-8, 24), m)) if rng.random() < 0.8 else sorted(rng.choice(range(-4, 8)) for _k in range(m))
+        rows = sorted((Fr(x, 4), Fr(rng.randint(-40, 40), 8)) for x in xs)
+        qs = [Fr(q, 8) for q in rng.sample(range(-24, 56), 12)] + [r[0] for r in rows]
+        reqs.append(dict(op="table_reader", rows=[dict(x=common.fq(a), y=common.fq(b)) for a, b in rows], xs=[common.fq(q) for q in qs]))
+        cases.append((rows, qs))
+    bad = 0
+    for (rows, qs), a in zip(cases, query_gen(reqs)):
+        text = "".join("%r %r\n" % (float(x), float(y)) for x, y in rows)
+        tr = ap.TableReader(io.StringIO(text)).datReader
+        for q, (gi, gv) in zip(qs, a):
+            try:
+                ri, rv = tr._findIndex(float(q)), tr.getValue(float(q))
+            except ZeroDivisionError:
+                continue          # two rows with one abscissa and a query between them: outside the property (the model divides by zero to 0; recorded by C18 itself)
+            run.traces += 1
+            run.dist["translator-validation/table_reader"] += 1
+            # (the index is compared exactly; the interpolated value up to double rounding of the slope, which is not dyadic in general)
+            if ri != gi or abs(rv - float(Fr(gv))) > 1e-12 * (1.0 + abs(rv)):
+                bad += 1
+                if bad <= 2:
+                    run.tie_broken("translator", "generated _findIndex / getValue vs the real ones", "rows %s x=%s: real (%r, %r) generated (%r, %s)" % ([(str(x), str(y)) for x, y in rows], q, ri, rv, gi, gv))
     return len(cases)
